@@ -797,6 +797,388 @@ theorem stale_sizes_misdeliver :
 
 end flat
 
+/-! ### nested couplers (a Coupler as one of the models of another Coupler), several couplers alive at once
+
+The model (`KawinV.Flatten.CTree`, `flattenT`, `unflattenT`) gives every Coupler an object identity and
+keeps the `_sizeRef` attributes in a heap; "per-instance sizes" is the hypothesis that the identities in a
+tree (forest) are pairwise distinct. -/
+
+section nested
+open KawinV.Flatten
+variable {β : Type}
+
+theorem flatTs_eq (cs : List (CTree β)) : flatTs cs = (cs.map flatT).flatten := by
+  induction cs with
+  | nil => rfl
+  | cons c cs ih => simp [flatTs, ih]
+
+mutual
+theorem flattenT_fst : ∀ (T : CTree β) (h : Heap), (flattenT h T).1 = flatT T
+  | .leaf X, h => rfl
+  | .node id cs, h => by
+    simp only [flattenT, flatT, flatTs_eq]
+    rw [flattenTs_fst cs h]
+theorem flattenTs_fst : ∀ (cs : List (CTree β)) (h : Heap), (flattenTs h cs).1 = cs.map flatT
+  | [], h => rfl
+  | c :: cs, h => by
+    simp only [flattenTs, List.map_cons]
+    rw [flattenT_fst c h, flattenTs_fst cs _]
+end
+
+theorem Heap.set_same (h : Heap) (k : Nat) (v : List Nat) : (h.set k v) k = some v := by simp [Heap.set]
+theorem Heap.set_other (h : Heap) (k j : Nat) (v : List Nat) (hne : j ≠ k) : (h.set k v) j = h j := by simp [Heap.set, hne]
+
+mutual
+/-- `flattenX` of a tree writes only the `_sizeRef` of the Couplers IN that tree -/
+theorem flattenT_frame : ∀ (T : CTree β) (h : Heap) (k : Nat), k ∉ T.ids → (flattenT h T).2 k = h k
+  | .leaf X, h, k, _ => rfl
+  | .node id cs, h, k, hk => by
+    simp only [CTree.ids, List.mem_cons, not_or] at hk
+    simp only [flattenT]
+    rw [Heap.set_other _ _ _ _ hk.1, flattenTs_frame cs h k hk.2]
+theorem flattenTs_frame : ∀ (cs : List (CTree β)) (h : Heap) (k : Nat), k ∉ idsL cs → (flattenTs h cs).2 k = h k
+  | [], h, k, _ => rfl
+  | c :: cs, h, k, hk => by
+    simp only [idsL, List.mem_append, not_or] at hk
+    simp only [flattenTs]
+    rw [flattenTs_frame cs _ k hk.2, flattenT_frame c h k hk.1]
+end
+
+mutual
+/-- `unflattenX` of a tree reads only the `_sizeRef` of the Couplers in that tree -/
+theorem unflattenT_congr : ∀ (T : CTree β) (h h' : Heap) (flat : List β), (∀ k ∈ T.ids, h k = h' k) →
+    unflattenT h flat T = unflattenT h' flat T
+  | .leaf X, h, h', flat, _ => rfl
+  | .node id cs, h, h', flat, hk => by
+    simp only [unflattenT]
+    rw [hk id (by simp [CTree.ids])]
+    cases h' id with
+    | none => rfl
+    | some ss => simp only; rw [unflattenTs_congr cs h h' flat ss (fun k hk' => hk k (by simp [CTree.ids, hk']))]
+theorem unflattenTs_congr : ∀ (cs : List (CTree β)) (h h' : Heap) (flat : List β) (ss : List Nat), (∀ k ∈ idsL cs, h k = h' k) →
+    unflattenTs h flat ss cs = unflattenTs h' flat ss cs
+  | [], h, h', flat, ss, _ => rfl
+  | c :: cs, h, h', flat, ss, hk => by
+    cases ss with
+    | nil => rfl
+    | cons s ss' =>
+      simp only [unflattenTs]
+      rw [unflattenT_congr c h h' _ (fun k hk' => hk k (by simp [idsL, hk'])),
+        unflattenTs_congr cs h h' _ ss' (fun k hk' => hk k (by simp [idsL, hk']))]
+end
+
+mutual
+/-- every Coupler of the tree has the sizes of ITS sub-models' flat vectors on record -/
+def Recorded (h : Heap) : CTree β → Prop
+  | .leaf _ => True
+  | .node id cs => h id = some (cs.map (fun c => (flatT c).length)) ∧ RecordedL h cs
+def RecordedL (h : Heap) : List (CTree β) → Prop
+  | [] => True
+  | c :: cs => Recorded h c ∧ RecordedL h cs
+end
+
+mutual
+theorem recorded_congr : ∀ (T : CTree β) (h h' : Heap), (∀ k ∈ T.ids, h k = h' k) → Recorded h T → Recorded h' T
+  | .leaf X, h, h', _, _ => trivial
+  | .node id cs, h, h', hk, hr => by
+    simp only [Recorded] at hr ⊢
+    exact ⟨by rw [← hk id (by simp [CTree.ids])]; exact hr.1,
+      recordedL_congr cs h h' (fun k hk' => hk k (by simp [CTree.ids, hk'])) hr.2⟩
+theorem recordedL_congr : ∀ (cs : List (CTree β)) (h h' : Heap), (∀ k ∈ idsL cs, h k = h' k) → RecordedL h cs → RecordedL h' cs
+  | [], h, h', _, _ => trivial
+  | c :: cs, h, h', hk, hr => by
+    simp only [RecordedL] at hr ⊢
+    exact ⟨recorded_congr c h h' (fun k hk' => hk k (by simp [idsL, hk'])) hr.1,
+      recordedL_congr cs h h' (fun k hk' => hk k (by simp [idsL, hk'])) hr.2⟩
+end
+
+mutual
+/-- **after `flattenX`, every Coupler of the tree has its own sizes on record** — provided the
+Couplers are distinct objects -/
+theorem flattenT_recorded : ∀ (T : CTree β) (h : Heap), T.ids.Nodup → Recorded (flattenT h T).2 T
+  | .leaf X, h, _ => trivial
+  | .node id cs, h, hnd => by
+    simp only [CTree.ids, List.nodup_cons] at hnd
+    simp only [Recorded, flattenT]
+    refine ⟨?_, ?_⟩
+    · rw [Heap.set_same, flattenTs_fst, List.map_map]; rfl
+    · refine recordedL_congr cs (flattenTs h cs).2 _ (fun k hk => ?_) (flattenTs_recorded cs h hnd.2)
+      rw [Heap.set_other]; rintro rfl; exact hnd.1 hk
+theorem flattenTs_recorded : ∀ (cs : List (CTree β)) (h : Heap), (idsL cs).Nodup → RecordedL (flattenTs h cs).2 cs
+  | [], h, _ => trivial
+  | c :: cs, h, hnd => by
+    simp only [idsL, List.nodup_append] at hnd
+    simp only [RecordedL, flattenTs]
+    refine ⟨?_, flattenTs_recorded cs _ hnd.2.1⟩
+    refine recorded_congr c (flattenT h c).2 _ (fun k hk => ?_) (flattenT_recorded c h hnd.1)
+    rw [flattenTs_frame cs _ k (fun hk' => hnd.2.2 k hk k hk' rfl)]
+end
+
+mutual
+/-- round trip under recorded sizes -/
+theorem unflattenT_of_recorded : ∀ (T : CTree β) (h : Heap) (rest : List β), T.wf → Recorded h T →
+    unflattenT h (flatT T ++ rest) T = some T
+  | .leaf X, h, rest, hwf, _ => by
+    simp only [unflattenT, flatT, CTree.wf] at hwf ⊢
+    rw [unflatten_flatten X hwf rest]; rfl
+  | .node id cs, h, rest, hwf, hr => by
+    simp only [Recorded, CTree.wf] at hr hwf
+    simp only [unflattenT, flatT, hr.1]
+    rw [unflattenTs_of_recorded cs h rest hwf hr.2]; rfl
+theorem unflattenTs_of_recorded : ∀ (cs : List (CTree β)) (h : Heap) (rest : List β), wfL cs → RecordedL h cs →
+    unflattenTs h (flatTs cs ++ rest) (cs.map (fun c => (flatT c).length)) cs = some cs
+  | [], h, rest, _, _ => rfl
+  | c :: cs, h, rest, hwf, hr => by
+    simp only [RecordedL, wfL] at hr hwf
+    simp only [List.map_cons, unflattenTs, flatTs, List.append_assoc, List.take_left', List.drop_left']
+    have h1 := unflattenT_of_recorded c h [] hwf.1 hr.1
+    rw [List.append_nil] at h1
+    rw [h1]
+    simp only
+    rw [unflattenTs_of_recorded cs h rest hwf.2 hr.2]; rfl
+end
+
+/-- **nested round trip**: for EVERY coupling tree whose Couplers are distinct objects (each with its
+own `_sizeRef`), whatever was on record before (`h`): `unflattenX(flattenX(X), X) = X`, leaf by leaf,
+Coupler by Coupler, at every depth (also when the flat vector carries further entries behind it) -/
+theorem nested_unflatten_flatten (T : CTree β) (h : Heap) (rest : List β) (hwf : T.wf) (hid : T.ids.Nodup) :
+    unflattenT (flattenT h T).2 ((flattenT h T).1 ++ rest) T = some T := by
+  rw [flattenT_fst]
+  exact unflattenT_of_recorded T _ rest hwf (flattenT_recorded T h hid)
+
+theorem flattenAll_frame (Ts : List (CTree β)) (h : Heap) (k : Nat) (hk : ∀ T' ∈ Ts, k ∉ T'.ids) :
+    flattenAll h Ts k = h k := by
+  induction Ts generalizing h with
+  | nil => rfl
+  | cons T' Ts ih =>
+    simp only [flattenAll]
+    rw [ih _ (fun T'' hT => hk T'' (List.mem_cons_of_mem _ hT)), flattenT_frame T' h k (hk T' List.mem_cons_self)]
+
+/-- **independent couplers, any interleaving**: after `flattenX` of one tree, `flattenX` calls on any
+number of OTHER model trees (no Coupler object in common) do not disturb it: its vector still
+unflattens to exactly its state -/
+theorem nested_roundtrip_interleaved (T : CTree β) (Ts : List (CTree β)) (h : Heap) (hwf : T.wf) (hid : T.ids.Nodup)
+    (hdis : ∀ T' ∈ Ts, ∀ k ∈ T'.ids, k ∉ T.ids) :
+    unflattenT (flattenAll (flattenT h T).2 Ts) (flattenT h T).1 T = some T := by
+  have h0 := unflattenT_of_recorded T (flattenAll (flattenT h T).2 Ts) [] hwf
+    (recorded_congr T (flattenT h T).2 _ (fun k hk => (flattenAll_frame Ts _ k (fun T' hT hk' => hdis T' hT k hk' hk)).symm)
+      (flattenT_recorded T h hid))
+  rw [List.append_nil] at h0
+  rw [flattenT_fst]; exact h0
+
+theorem flatT_length_leaf (X : List (Item β)) (hwf : ∀ it ∈ X, it.wf) : (flatten X).length = totalSize X :=
+  flatten_length X hwf
+
+mutual
+/-- **what every leaf callback receives**: with the sizes of the latest `flattenX` on record, ANY
+flat vector of sufficient length (what the iterator returns) is cut into a tree with the same coupling
+topology, every leaf state with exactly the structure and shapes that leaf supplied, and the numbers
+in order (leaf k gets the k-th block of the vector) -/
+theorem unflattenT_shapes : ∀ (T : CTree β) (h : Heap) (flat : List β), T.wf → Recorded h T → (flatT T).length ≤ flat.length →
+    ∃ T', unflattenT h flat T = some T' ∧ T'.leafShapes = T.leafShapes ∧ T'.topo = T.topo ∧ T'.wf ∧
+      flatT T' = flat.take (flatT T).length
+  | .leaf X, h, flat, hwf, _, hlen => by
+    simp only [CTree.wf, flatT] at hwf hlen
+    obtain ⟨Y, hY⟩ := unflatten_isSome X flat (by rw [← flatten_length X hwf]; exact hlen)
+    refine ⟨.leaf Y, by simp [unflattenT, hY], ?_, rfl, ?_, ?_⟩
+    · simp only [CTree.leafShapes, (unflatten_shapes X flat Y hY).1]
+    · exact (unflatten_shapes X flat Y hY).2
+    · simp only [flatT]; rw [flatten_unflatten X flat Y hY, flatten_length X hwf]
+  | .node id cs, h, flat, hwf, hr, hlen => by
+    simp only [Recorded, CTree.wf, flatT] at hr hwf hlen
+    obtain ⟨ts, h1, h2, h3, h4, h5⟩ := unflattenTs_shapes cs h flat hwf hr.2 hlen
+    refine ⟨.node id ts, by simp [unflattenT, hr.1, h1], ?_, ?_, ?_, ?_⟩
+    · simpa only [CTree.leafShapes] using h2
+    · simp only [CTree.topo, h3]
+    · simpa only [CTree.wf] using h4
+    · simpa only [flatT] using h5
+theorem unflattenTs_shapes : ∀ (cs : List (CTree β)) (h : Heap) (flat : List β), wfL cs → RecordedL h cs → (flatTs cs).length ≤ flat.length →
+    ∃ ts, unflattenTs h flat (cs.map (fun c => (flatT c).length)) cs = some ts ∧ leafShapesL ts = leafShapesL cs ∧ topoL ts = topoL cs ∧ wfL ts ∧
+      flatTs ts = flat.take (flatTs cs).length
+  | [], h, flat, _, _, _ => ⟨[], rfl, rfl, rfl, trivial, by simp [flatTs]⟩
+  | c :: cs, h, flat, hwf, hr, hlen => by
+    simp only [RecordedL, wfL, flatTs, List.length_append] at hr hwf hlen
+    obtain ⟨x, x1, x2, x3, x4, x5⟩ := unflattenT_shapes c h (flat.take (flatT c).length) hwf.1 hr.1 (by rw [List.length_take]; omega)
+    obtain ⟨ts, t1, t2, t3, t4, t5⟩ := unflattenTs_shapes cs h (flat.drop (flatT c).length) hwf.2 hr.2 (by rw [List.length_drop]; omega)
+    refine ⟨x :: ts, ?_, ?_, ?_, ⟨x4, t4⟩, ?_⟩
+    · simp only [List.map_cons, unflattenTs, x1, t1]; rfl
+    · simp only [leafShapesL, x2, t2]
+    · simp only [topoL, x3, t3]
+    · simp only [flatTs, x5, t5, List.take_take, Nat.min_self, List.length_append]
+      rw [List.take_add]
+end
+
+/-- … in particular after `flattenX` of a tree of distinct Coupler objects, and after any number of
+`flattenX` calls on other trees in between -/
+theorem nested_unflatten_shapes (T : CTree β) (Ts : List (CTree β)) (h : Heap) (flat : List β) (hwf : T.wf) (hid : T.ids.Nodup)
+    (hdis : ∀ T' ∈ Ts, ∀ k ∈ T'.ids, k ∉ T.ids) (hlen : (flattenT h T).1.length ≤ flat.length) :
+    ∃ T', unflattenT (flattenAll (flattenT h T).2 Ts) flat T = some T' ∧ T'.leafShapes = T.leafShapes ∧ T'.topo = T.topo ∧
+      flatT T' = flat.take (flattenT h T).1.length := by
+  rw [flattenT_fst] at hlen ⊢
+  obtain ⟨T', h1, h2, h3, _, h5⟩ := unflattenT_shapes T (flattenAll (flattenT h T).2 Ts) flat hwf
+    (recorded_congr T (flattenT h T).2 _ (fun k hk => (flattenAll_frame Ts _ k (fun T' hT hk' => hdis T' hT k hk' hk)).symm)
+      (flattenT_recorded T h hid)) hlen
+  exact ⟨T', h1, h2, h3, h5⟩
+
+/-! #### several model trees alive at once, operations in any interleaving -/
+
+theorem wfL_get : ∀ (forest : List (CTree β)) (i : Nat) (T : CTree β), wfL forest → forest[i]? = some T → T.wf
+  | [], i, T, _, h => by simp at h
+  | c :: cs, 0, T, hwf, h => by simp at h; subst h; exact hwf.1
+  | c :: cs, i + 1, T, hwf, h => by simp at h; exact wfL_get cs i T hwf.2 h
+
+theorem mem_idsL : ∀ (forest : List (CTree β)) (i : Nat) (T : CTree β) (k : Nat), forest[i]? = some T → k ∈ T.ids → k ∈ idsL forest
+  | [], i, T, k, h, _ => by simp at h
+  | c :: cs, 0, T, k, h, hk => by simp at h; subst h; simp [idsL, hk]
+  | c :: cs, i + 1, T, k, h, hk => by simp at h; simp [idsL, mem_idsL cs i T k h hk]
+
+theorem idsL_get_nodup : ∀ (forest : List (CTree β)) (i : Nat) (T : CTree β), (idsL forest).Nodup → forest[i]? = some T → T.ids.Nodup
+  | [], i, T, _, h => by simp at h
+  | c :: cs, 0, T, hnd, h => by simp at h; subst h; simp only [idsL, List.nodup_append] at hnd; exact hnd.1
+  | c :: cs, i + 1, T, hnd, h => by
+    simp at h; simp only [idsL, List.nodup_append] at hnd; exact idsL_get_nodup cs i T hnd.2.1 h
+
+/-- distinct trees of a forest of distinct Coupler objects have no Coupler in common -/
+theorem idsL_disjoint : ∀ (forest : List (CTree β)) (i j : Nat) (T T' : CTree β), (idsL forest).Nodup →
+    forest[i]? = some T → forest[j]? = some T' → i ≠ j → ∀ k ∈ T.ids, k ∉ T'.ids
+  | [], i, j, T, T', _, h, _, _ => by simp at h
+  | c :: cs, 0, 0, T, T', _, _, _, hne => absurd rfl hne
+  | c :: cs, 0, j + 1, T, T', hnd, h, h', _ => by
+    simp at h h'; subst h
+    simp only [idsL, List.nodup_append] at hnd
+    intro k hk hk'; exact hnd.2.2 k hk k (mem_idsL cs j T' k h' hk') rfl
+  | c :: cs, i + 1, 0, T, T', hnd, h, h', _ => by
+    simp at h h'; subst h'
+    simp only [idsL, List.nodup_append] at hnd
+    intro k hk hk'; exact hnd.2.2 k hk' k (mem_idsL cs i T k h hk) rfl
+  | c :: cs, i + 1, j + 1, T, T', hnd, h, h', hne => by
+    simp at h h'
+    simp only [idsL, List.nodup_append] at hnd
+    exact idsL_disjoint cs i j T T' hnd.2.1 h h' (by omega)
+
+/-- interpreter invariant: the vector kept for a tree is that tree's flat vector, and every Coupler of
+that tree still has its own sizes on record -/
+def WInv (forest : List (CTree β)) (w : World β) : Prop :=
+  ∀ i T v, forest[i]? = some T → w.kept i = some v → v = flatT T ∧ Recorded w.heap T
+
+theorem winv_new (forest : List (CTree β)) : WInv forest World.new := by
+  intro i T v _ h; simp [World.new] at h
+
+theorem winv_step (forest : List (CTree β)) (hid : (idsL forest).Nodup) (w : World β) (o : Op β)
+    (hI : WInv forest w) : WInv forest (runOp forest w o).1 := by
+  cases o with
+  | flat j =>
+    simp only [runOp]
+    cases hj : forest[j]? with
+    | none => exact hI
+    | some Tj =>
+      intro i T v hT hv
+      simp only at hv ⊢
+      by_cases hij : i = j
+      · subst hij
+        rw [hj] at hT; cases hT
+        simp only [if_true, Option.some.injEq] at hv
+        exact ⟨by rw [← hv, flattenT_fst], flattenT_recorded _ _ (idsL_get_nodup forest i _ hid hj)⟩
+      · simp only [if_neg hij] at hv
+        obtain ⟨h1, h2⟩ := hI i T v hT hv
+        refine ⟨h1, recorded_congr T w.heap _ (fun k hk => ?_) h2⟩
+        rw [flattenT_frame Tj w.heap k (idsL_disjoint forest i j T Tj hid hT hj hij k hk)]
+  | unflat j =>
+    simp only [runOp]
+    cases forest[j]? <;> cases w.kept j <;> exact hI
+  | unflatWith j v =>
+    simp only [runOp]
+    cases forest[j]? <;> exact hI
+
+/-- what a correct answer to an operation is: `unflattenX` of the vector kept for tree i gives tree i's
+state back (or there is no such tree / nothing was kept) -/
+def Out.okFor (forest : List (CTree β)) : Op β → Out β → Prop
+  | .unflat i, .unflat r => ∃ T, forest[i]? = some T ∧ r = some T
+  | .unflat _, .flat _ _ => False
+  | _, _ => True
+
+/-- **any interleaving of `flattenX` / `unflattenX` calls on any number of live model trees** (nested
+to any depth) whose Couplers are distinct objects: every `unflattenX` of a kept vector gives exactly the
+state that was flattened -/
+theorem runOps_roundtrip (forest : List (CTree β)) (hwf : wfL forest) (hid : (idsL forest).Nodup) :
+    ∀ (ops : List (Op β)) (w : World β), WInv forest w → List.Forall₂ (Out.okFor forest) ops (runOps forest w ops)
+  | [], w, _ => List.Forall₂.nil
+  | o :: os, w, hI => by
+    simp only [runOps]
+    refine List.Forall₂.cons ?_ (runOps_roundtrip forest hwf hid os _ (winv_step forest hid w o hI))
+    cases o with
+    | flat j => simp only [runOp]; cases forest[j]? <;> trivial
+    | unflatWith j v => simp only [runOp]; cases forest[j]? <;> trivial
+    | unflat j =>
+      simp only [runOp]
+      cases hj : forest[j]? with
+      | none => trivial
+      | some T =>
+        cases hk : w.kept j with
+        | none => trivial
+        | some v =>
+          obtain ⟨h1, h2⟩ := hI j T v hj hk
+          have := unflattenT_of_recorded T w.heap [] (wfL_get forest j T hwf hj) h2
+          rw [List.append_nil] at this
+          exact ⟨T, hj, by rw [h1]; exact this⟩
+
+/-! #### the shared-size-list variant breaks nesting and interleaving (concrete witnesses) -/
+
+/-- the answer of an `unflat` operation -/
+def Out.res : Out β → Option (Option (CTree β))
+  | .unflat r => some r
+  | _ => none
+
+/-- **one size list shared by all Coupler instances breaks nesting**: `Coupler([Coupler([A, B]), C])` with
+A = [scalar, (3,)], B = [(4,), scalar, (2,)], C = [(2,5)].  With per-instance sizes the inner Coupler has
+[4, 7] on record, the outer [11, 10], and the round trip gives the state back.  With one shared list the
+outer `flattenX` overwrites the inner sizes: the inner `unflattenX` slices ITS block of 11 numbers with
+[11, 10] — model A is handed all 11 numbers, model B the empty slice: no state comes back (`none` =
+NumPy's reshape error in the first right-hand-side call).  In `Coupler([Coupler([A, B])])` the shared
+list has ONE entry, the `zip` over the inner models stops after A, and model B's state silently
+disappears from what the callbacks receive. -/
+theorem shared_sizes_break_nesting :
+    let a : List (Item ℚ) := [.scalar 1, .arr [3] [2, 3, 4]]
+    let b : List (Item ℚ) := [.arr [4] [5, 6, 7, 8], .scalar 9, .arr [2] [10, 11]]
+    let c : List (Item ℚ) := [.arr [2, 5] [12, 13, 14, 15, 16, 17, 18, 19, 20, 21]]
+    let T : CTree ℚ := .node 0 [.node 1 [.leaf a, .leaf b], .leaf c]
+    let U : CTree ℚ := .node 0 [.node 1 [.leaf a, .leaf b]]
+    T.ids = [0, 1] ∧
+    (flattenT Heap.empty T).2 1 = some [4, 7] ∧ (flattenT Heap.empty T).2 0 = some [11, 10] ∧
+    unflattenT (flattenT Heap.empty T).2 (flattenT Heap.empty T).1 T = some T ∧
+    T.share.ids = [0, 0] ∧ (flattenT Heap.empty T.share).2 0 = some [11, 10] ∧
+    unflattenT (flattenT Heap.empty T.share).2 (flattenT Heap.empty T.share).1 T.share = none ∧
+    (((flattenT Heap.empty T.share).1.take 11).drop 11).take 10 = [] ∧
+    unflattenT (flattenT Heap.empty U).2 (flattenT Heap.empty U).1 U = some U ∧
+    unflattenT (flattenT Heap.empty U.share).2 (flattenT Heap.empty U.share).1 U.share = some (.node 0 [.node 0 [.leaf a]]) := by
+  decide +kernel
+
+/-- **… and breaks two independent couplers used in turn**: `flattenX` of one, `flattenX` of the other,
+then `unflattenX` of the first: with per-instance sizes both vectors come back as supplied, with the
+shared list the first coupler slices with the second one's sizes -/
+theorem shared_sizes_break_interleaving :
+    let a : List (Item ℚ) := [.scalar 1, .arr [3] [2, 3, 4]]
+    let b : List (Item ℚ) := [.arr [4] [5, 6, 7, 8], .scalar 9, .arr [2] [10, 11]]
+    let c : List (Item ℚ) := [.arr [2, 5] [12, 13, 14, 15, 16, 17, 18, 19, 20, 21]]
+    let d : List (Item ℚ) := [.scalar 22]
+    let forest : List (CTree ℚ) := [.node 0 [.leaf a, .leaf b], .node 1 [.leaf c, .leaf d]]
+    let ops : List (Op ℚ) := [.flat 0, .flat 1, .unflat 0, .unflat 1]
+    (runOps forest World.new ops).map Out.res = [none, none, some forest[0]?, some forest[1]?] ∧
+    (runOps (shareL forest) World.new ops).map Out.res = [none, none, some none, some (shareL forest)[1]?] := by
+  decide +kernel
+
+/-- non-vacuity of the hypotheses of `nested_unflatten_flatten` / `runOps_roundtrip`: a depth-3 tree of
+distinct Couplers over well-formed leaf states, and a forest of two such trees -/
+example :
+    let a : List (Item ℚ) := [.scalar 1, .arr [3] [2, 3, 4]]
+    let d : List (Item ℚ) := [.scalar 22]
+    let T : CTree ℚ := .node 0 [.leaf d, .node 1 [.leaf a, .node 2 [.leaf d, .leaf a]]]
+    let T' : CTree ℚ := .node 3 [.leaf a, .leaf d]
+    T.wf ∧ T.ids.Nodup ∧ wfL [T, T'] ∧ (idsL [T, T']).Nodup ∧ (∀ k ∈ T'.ids, k ∉ T.ids) := by
+  simp [CTree.wf, wfL, CTree.ids, idsL, Item.wf, prodL]
+
+end nested
+
 /-! ### time bookkeeping: the clock advances by the step the iterator used -/
 
 section clock
